@@ -25,7 +25,7 @@ func (c *Case) ID() string {
 	return fmt.Sprintf("%s[%s] fault=%s@%d", c.Wrapper, c.Nodes, c.Fault, c.At)
 }
 
-var wrappers = []string{"flat", "for", "if", "with", "autoescape", "ifchanged", "spaceless", "filter", "filter-length", "for-filter-length", "include", "include-lazy", "macro", "extends", "for-include", "ssi-parsed", "for-empty", "for-reversed", "ifequal", "block", "import-macro", "if-elif"}
+var wrappers = []string{"flat", "for", "if", "with", "autoescape", "ifchanged", "spaceless", "filter", "filter-length", "for-filter-length", "include", "include-lazy", "macro", "extends", "for-include", "ssi-parsed", "for-empty", "for-reversed", "ifequal", "block", "import-macro", "if-elif", "extends-own-options", "extends-2-own-options"}
 
 // build returns the file set, the name of the entry file and the expected fault-free output.
 func build(wrapper, nodes string) (files map[string]string, expected string, ticks int) {
@@ -130,6 +130,18 @@ func build(wrapper, nodes string) (files map[string]string, expected string, tic
 	case "macro":
 		files["/main"] = "{% macro m() %}" + b + "{% endmacro %}X{{ m() }}Y"
 		expected = "X" + render() + "Y"
+	case "extends-own-options", "extends-2-own-options":
+		// the executed child has TrimBlocks/LStripBlocks switched on on itself (Exec does that for these wrappers):
+		// the newline after its block tag and the blanks before its end tag disappear, on every entry point
+		files["/base"] = "<{% block c %}base{% endblock %}|{% block d %}d{% endblock %}>"
+		files["/main"] = "{% extends \"base\" %}{% block c %}\n" + b + "  {% endblock %}"
+		if wrapper == "extends-2-own-options" {
+			files["/mid"] = "{% extends \"base\" %}{% block d %}\nmid {% endblock %}"
+			files["/main"] = "{% extends \"mid\" %}{% block c %}\n" + b + "  {% endblock %}"
+			expected = "<" + render() + "|\nmid >"
+		} else {
+			expected = "<" + render() + "|d>"
+		}
 	case "extends":
 		files["/base"] = "<{% block c %}base{% endblock %}>"
 		files["/main"] = "{% extends \"base\" %}{% block c %}" + b + "{% endblock %}"
@@ -148,6 +160,7 @@ type faultWriter struct {
 	calls   int
 	failAt  int
 	short   bool
+	full    bool
 	errSeen error
 }
 
@@ -156,6 +169,12 @@ var errWriter = errors.New("c14: injected writer failure")
 func (w *faultWriter) Write(p []byte) (int, error) {
 	w.calls++
 	if w.failAt > 0 && w.calls >= w.failAt {
+		if w.full {
+			// a writer that took everything and still reports a failure (e.g. a tee whose second sink failed)
+			w.buf = append(w.buf, p...)
+			w.errSeen = errWriter
+			return len(p), errWriter
+		}
 		if w.short && len(p) > 1 {
 			w.buf = append(w.buf, p[:len(p)/2]...)
 			w.errSeen = errWriter
@@ -187,6 +206,8 @@ func (c *Case) Exec(t *eng.T) {
 		tpl, out := px.CompileFile(set, "/main")
 		if tpl == nil {
 			t.Fail("compile:"+c.Wrapper, "%s does not compile: %s", c.ID(), out)
+		} else if strings.HasSuffix(c.Wrapper, "own-options") {
+			tpl.Options.TrimBlocks, tpl.Options.LStripBlocks = true, true
 		}
 		return tpl
 	}
@@ -242,9 +263,10 @@ func (c *Case) Exec(t *eng.T) {
 	}
 	mkw := func() *faultWriter {
 		w := &faultWriter{}
-		if c.Fault == "write" || c.Fault == "short" {
+		if c.Fault == "write" || c.Fault == "short" || c.Fault == "write-full" {
 			w.failAt = c.At
 			w.short = c.Fault == "short"
+			w.full = c.Fault == "write-full"
 		}
 		return w
 	}
@@ -388,6 +410,9 @@ func run(r *eng.Runner) {
 			for j := 1; j <= writes; j++ {
 				r.Do(&Case{Wrapper: w, Nodes: nodes, Fault: "write", At: j})
 				r.Do(&Case{Wrapper: w, Nodes: nodes, Fault: "short", At: j})
+				if j <= 2 {
+					r.Do(&Case{Wrapper: w, Nodes: nodes, Fault: "write-full", At: j})
+				}
 			}
 			return !r.Stopped()
 		})
